@@ -206,3 +206,156 @@ def run_errors(prog, tier, repo):
                       f'(a fresh server still reports them)')
     # every caller tells recheck which modules it re-parsed: parse calls and the reparsed argument
     return [res]
+
+
+def _chain_closures(prog, b, local, depth=0, seen=None):
+    """Closures (and a flag for `whole element`) met while tracing how an iterator/collection value was built."""
+    from ..cfg import def_sites
+    seen = seen if seen is not None else set()
+    out = []
+    if depth > 12 or local in seen:
+        return out
+    seen.add(local)
+    for dbb, si, rv in def_sites(b).get(local, []):
+        if b.blocks[dbb].cleanup:
+            continue
+        if si == 'term':
+            t = rv
+            for o in t[3]:
+                if o[0] in ('c', 'm'):
+                    r, p = operand_root(b, o)
+                    if r is None:
+                        continue
+                    sd = single_def(b, r)
+                    if sd and sd[1] != 'term' and sd[2][0] == 'agg' and sd[2][1][0] == 'closure':
+                        out.append(sd[2][1][1])
+                    else:
+                        out += _chain_closures(prog, b, r, depth + 1, seen)
+        else:
+            for o in ([rv[1]] if rv[0] in ('use',) else []):
+                if o[0] in ('c', 'm'):
+                    out += _chain_closures(prog, b, o[1].local, depth + 1, seen)
+            if rv[0] == 'ref':
+                out += _chain_closures(prog, b, rv[2].local, depth + 1, seen)
+    return out
+
+
+def _tuple_components_read(prog, cid, depth=0):
+    """Tuple component indices of the element a closure (and closures nested in it) reads."""
+    from ..core import places_read
+    cb = prog.bodies.get(cid)
+    comps = set()
+    if cb is None or depth > 3:
+        return comps
+    for pl, bi, line in places_read(cb):
+        for e in pl.proj:
+            if e[0] == 't':
+                comps.add(e[1])
+    # pattern parameters `|(a, b)|` are destructured into locals straight from the argument
+    for bl in cb.blocks:
+        for st in bl.stmts:
+            if st[0] == 'a' and st[2][0] in ('use', 'ref', 'copyderef'):
+                pl = st[2][1][1] if st[2][0] == 'use' and st[2][1][0] in ('c', 'm') else (st[2][2] if st[2][0] == 'ref' else (st[2][1] if st[2][0] == 'copyderef' else None))
+                if pl is not None:
+                    for e in pl.proj:
+                        if e[0] == 't':
+                            comps.add(e[1])
+    for c in prog.closures_of.get(cb.parent or cid, []):
+        pass
+    return comps
+
+
+def run_dirty(prog, tier, repo):
+    res = RuleResult('DIRTY-COVERS', 'C10: no error in a dependent module is missed - the dirty set handed to the dependency '
+                     'graph names every module the mutator adds or removes, and every module announced as re-parsed is parsed')
+    rc, muts = _mutators(prog)
+    if rc is None or len(muts) < 3:
+        res.cannot_decide('recheck and its three callers (update / rename / remove)')
+        return [res]
+    # which HashSet parameter of recheck is the "re-parsed" set: the one it queries with contains()
+    reparsed_idx = None
+    for bi, t in call_sites(rc, lambda n: n.endswith('HashSet::<T, S, A>::contains')):
+        r, _ = operand_root(rc, t[3][0])
+        if r is not None and 1 <= r <= rc.nargs:
+            reparsed_idx = r
+    for b in sorted(muts, key=lambda x: x.name):
+        cfg = cfg_of(b)
+        # ---- dirty set covers every mutated key ----
+        aff = call_sites(b, lambda n: n.endswith('DependencyGraph::affected_set'))
+        key = f'dirty:{b.name}'
+        if len(aff) != 1:
+            res.cannot_decide(f'the affected_set call of {b.name}', b.loc())
+        else:
+            ab, at = aff[0]
+            r, _ = operand_root(b, at[3][1])
+            closures = _chain_closures(prog, b, r) if r is not None else []
+            dirty = None if not closures else set()
+            for c in closures:
+                dirty |= _tuple_components_read(prog, c)
+            mut_comps = set()
+            whole = False
+            for bi, t, f in _map_calls(b, ('::insert', '::remove')):
+                if f != 'parsed_modules':
+                    continue
+                kr, kp = operand_root(b, t[3][1])
+                ts = [e[1] for e in kp if e[0] == 't']
+                # element of a Vec<(A, B)> iterated by value: path is (opt as Some).0.<component>
+                if ts:
+                    mut_comps.add(ts[-1])
+                else:
+                    whole = True
+            if dirty is None or (mut_comps <= dirty):
+                res.ok(key, b.loc(at[7]), f'dirty set is built from {"whole elements" if dirty is None else "components " + str(sorted(dirty))} '
+                       f'of the request, mutation keys use components {sorted(mut_comps) if mut_comps else "(whole element)"}')
+            else:
+                res.violation(key, b.loc(at[7]), f'{b.name}: parsed_modules is mutated under request components {sorted(mut_comps)} but the '
+                              f'dirty set given to DependencyGraph::affected_set is built only from components {sorted(dirty)}: '
+                              f'modules depending on the omitted names (e.g. importers of a name that only now starts to exist) '
+                              f'are not rechecked and keep stale diagnostics')
+        # ---- every module announced as re-parsed is parsed ----
+        if reparsed_idx is None:
+            continue
+        rcalls = [(bi, bl.term) for bi, bl in enumerate(b.blocks) if bl.term[0] == 'call' and callee(bl.term)[0] == rc.id and not bl.cleanup]
+        parses = [bi for bi, t in call_sites(b, lambda n: n.endswith('parse_source_module_from_text'))]
+        for rb, rt in rcalls:
+            key2 = f'reparsed:{b.name}'
+            rr, _ = operand_root(b, rt[3][reparsed_idx - 1])
+            from ..cfg import def_sites
+            defs = [d for d in def_sites(b).get(rr, []) if not b.blocks[d[0]].cleanup] if rr is not None else []
+            kinds = set()
+            for dbb, si, rv in defs:
+                if si == 'term':
+                    nm = callee(rv)[1] or ''
+                    kinds.add('empty' if nm.endswith(('HashSet::<T>::new', 'HashSet::<T, S>::default')) else 'bulk')
+            inserts = [bi for bi, t in call_sites(b, lambda n: n.endswith('HashSet::<T, S, A>::insert'))
+                       if operand_root(b, t[3][0])[0] == rr]
+            heads = {h for (_, h) in cfg.back_edges()}
+            problem = None
+            if 'bulk' in kinds:
+                # built from the whole request: the loop that parses must parse in every iteration
+                if not parses:
+                    problem = 'announces the whole request as re-parsed but never parses'
+                for pb in parses:
+                    for h in heads:
+                        if cfg.can_reach(h, pb) and cfg.can_reach(pb, h):
+                            body_succ = [x for x in cfg.succ[h]]
+                            r_ = cfg.reachable(h, removed_nodes=[pb])
+                            # is there a cycle through h that avoids the parse?
+                            cyc = any(h in cfg.reachable(x, removed_nodes=[pb]) for x in cfg.succ[h] if x in r_)
+                            if cyc:
+                                problem = ('announces every module of the request as re-parsed, but an iteration of the parse loop '
+                                           'can skip parse_source_module_from_text')
+            for ib in inserts:
+                ends = set(cfg.exits) | heads
+                if parses and not cfg.nodes_dominate(parses, ib):
+                    r_ = cfg.reachable(ib, removed_nodes=parses)
+                    if (r_ - {ib}) & ends:
+                        problem = 'adds a module to the re-parsed set on a path that does not parse it'
+                elif not parses:
+                    problem = 'adds a module to the re-parsed set but never parses'
+            if problem:
+                res.violation(key2, b.loc(rt[7]), f'{b.name} {problem}: recheck carries syntax errors over only for modules that are '
+                              f'not in that set, so the syntax errors of such a module silently disappear')
+            else:
+                res.ok(key2, b.loc(rt[7]), 'every module announced to recheck as re-parsed is parsed on every path')
+    return [res]
